@@ -31,6 +31,10 @@ def shards(tier):
         for s, skip in ((["A", "A", "A"], [1]), (["A", "B", "A"], [0]), (["A", "timing", "A"], [1]), (["B", "A", "sub0", "A"], [1]), (["A", "A"], [0])):
             out.append({"steps": s, "rsub": [2, 2], "xdrop": 0, "r0skip": skip})
             out.append({"steps": s, "rsub": [3, 2], "xdrop": 1, "r0skip": skip})
+        # a recipient that is served before it has completed its handshake: the numbering runs on across the CONNECT
+        for s in (["A", "conn0", "A"], ["sub0", "conn0", "B", "A"], ["A", "B", "conn0"], ["conn0", "A", "A"]):
+            out.append({"steps": s, "rsub": [2, 2], "xdrop": 0, "r0new": 1})
+            out.append({"steps": s, "rsub": [0, 3], "xdrop": 1, "r0new": 1})
     else:
         seqs = [list(s) for n in (1, 2, 3) for s in itertools.product(KINDS, repeat=n)]
         for s in seqs:
@@ -42,6 +46,9 @@ def shards(tier):
                     out.append({"steps": s, "rsub": [2, 2], "xdrop": 0, "r1fail": 1})
                     out.append({"steps": s, "rsub": [2, 3], "xdrop": 1, "r0block": 1})
                     out.append({"steps": s, "rsub": [2, 2], "xdrop": 0, "r0block": 2})
+                if len(s) == 2:
+                    for pos in (0, 1, 2):
+                        out.append({"steps": s[:pos] + ["conn0"] + s[pos:], "rsub": [2, 3], "xdrop": 0, "r0new": 1})
                 if len(s) >= 2:
                     for skip in ([0], [1], [0, 1]):
                         out.append({"steps": s, "rsub": [2, 3], "xdrop": 0, "r0skip": skip})
@@ -52,7 +59,7 @@ def obligations(tier):
     return [Obligation("frames_whole_ordered_gapfree", "harness.mgr_seq", "seq", shards(tier), cond_timeout=400, path_timeout=60,
                        reach="seq_reach", reach_shards=[{"steps": ["A", "B"], "rsub": [2, 3], "xdrop": 1}],
                        encoded=ENC + ["pyrtma.manager:MessageManager.send_timing_message", "pyrtma.manager:MessageManager.send_traffic"],
-                       bounds="sequences of <= 3 steps over {data frame from A, data frame from B, SUBSCRIBE from a recipient (ACK), TIMING_MESSAGE, MESSAGE_TRAFFIC, CLIENT_INFO}, 2 recipients with 4 subscription shapes, FAILED_MESSAGE traffic on/off, one recipient dying at either half of a frame, a recipient not ready during some of the steps",
+                       bounds="sequences of <= 3 steps over {data frame from A, data frame from B, SUBSCRIBE from a recipient (ACK), TIMING_MESSAGE, MESSAGE_TRAFFIC, CLIENT_INFO}, 2 recipients with 4 subscription shapes, FAILED_MESSAGE traffic on/off, one recipient dying at either half of a frame, a recipient not ready during some of the steps, a recipient served before and after its own handshake",
                        symbolic="both data types (int32), both payload sizes 0..65535, both recipients' sequence counters before the history, the subscribed type")]
 
 
